@@ -458,10 +458,7 @@ func setMapField(field reflect.Value, fieldType reflect.Type, isPtr bool, mapArr
 	items := mapArr.Items()
 	length := int(end - start)
 
-	if isPtr {
-		fieldType = fieldType.Elem()
-	}
-
+	// Note: fieldType is already dereferenced by the caller (setFieldFromArrow)
 	m := reflect.MakeMapWithSize(fieldType, length)
 	for j := 0; j < length; j++ {
 		k := reflect.New(fieldType.Key()).Elem()
@@ -469,8 +466,12 @@ func setMapField(field reflect.Value, fieldType reflect.Type, isPtr bool, mapArr
 		if err := setFieldFromArrow(k, fieldType.Key(), keys, int(start)+j, tagInfo{}); err != nil {
 			return fmt.Errorf("map key [%d]: %w", j, err)
 		}
-		if err := setFieldFromArrow(v, fieldType.Elem(), items, int(start)+j, tagInfo{}); err != nil {
-			return fmt.Errorf("map value [%d]: %w", j, err)
+		// A null item stays the zero value (nil for pointer value types),
+		// as in setListField.
+		if !items.IsNull(int(start) + j) {
+			if err := setFieldFromArrow(v, fieldType.Elem(), items, int(start)+j, tagInfo{}); err != nil {
+				return fmt.Errorf("map value [%d]: %w", j, err)
+			}
 		}
 		m.SetMapIndex(k, v)
 	}
